@@ -69,7 +69,9 @@ impl Rendezvous {
         let mut result = vec![];
         let mut next_link_map_addr = usize::from(self.link_map_main()) as *const libc::c_void;
 
-        while !next_link_map_addr.is_null() {
+        // the list is read from debugee memory, a corrupted (cyclic) list must not hang the debugger
+        const MAX_LINK_MAPS: usize = 4096;
+        while !next_link_map_addr.is_null() && result.len() < MAX_LINK_MAPS {
             let lm = ffi::read_val::<ffi::link_map>(self.pid, &mut (next_link_map_addr as usize))?;
             let name = ffi::read_string(self.pid, lm.l_name as usize)?;
 
